@@ -17,6 +17,7 @@ static const Q MARGIN = 1e-11Q;
 
 static void check(const Case &cc) {
     Case c = cc;  // library wants non-const vertex pointers
+    if (c.g.outer.size() < 3) { DISCARD(); return; }
     int res = c.res;
     pq::LibPoly lp(c.g);
     pq::Frame fr(c.g.outer);
